@@ -88,6 +88,13 @@ func TestMain(m *testing.M) {
 // copyDir makes the crash image: a byte copy of every regular file. Under
 // the process-kill model every completed write is visible after the kill,
 // so a copy taken between two writes IS the post-kill state.
+// copyProblem: an image that could not be copied faithfully (out of memory on
+// the tmpfs, descriptor limit) says nothing about the cache.
+func copyProblem(err error) {
+	fmt.Println("VERIF-INFRA: crash image could not be copied:", err)
+	panic("VERIF-INFRA: crash image could not be copied: " + err.Error())
+}
+
 func copyDir(src string) string {
 	dst := stack.FreshDir()
 	_ = filepath.Walk(src, func(p string, info os.FileInfo, err error) error {
@@ -95,17 +102,29 @@ func copyDir(src string) string {
 			return nil
 		}
 		rel, _ := filepath.Rel(src, p)
+		// The times first: reading the file below is an access, and the loader
+		// orders files (also two files of one key) by access time.
+		at, mt := atimeOf(info), info.ModTime()
 		b, err := os.ReadFile(p)
 		if err != nil {
-			return nil // unlinked while copying
+			if os.IsNotExist(err) {
+				return nil // unlinked while copying
+			}
+			copyProblem(err)
+			return nil
 		}
 		q := filepath.Join(dst, rel)
-		_ = os.MkdirAll(filepath.Dir(q), 0o755)
-		_ = os.WriteFile(q, b, 0o644)
-		// keep the relative age of files (the loader orders by access time)
-		if st, err := os.Stat(p); err == nil {
-			_ = os.Chtimes(q, atimeOf(st), st.ModTime())
+		if err := os.MkdirAll(filepath.Dir(q), 0o755); err != nil {
+			copyProblem(err)
 		}
+		if err := os.WriteFile(q, b, 0o644); err != nil {
+			copyProblem(err)
+		}
+		// keep the relative age of files; restore the source's own times too
+		if err := os.Chtimes(q, at, mt); err != nil {
+			copyProblem(err)
+		}
+		_ = os.Chtimes(p, at, mt)
 		return nil
 	})
 	return dst
@@ -477,6 +496,11 @@ func checkImage(t *rapid.T, im image, before, after, codec string, maxSize int64
 						continue
 					}
 				}
+				// the in-flight upload can name a key that was acknowledged earlier:
+				// same input class as in section 2 (F16 variant)
+				if key == inflightKey && sz >= 0 && before == "uncompressed" && strings.Contains(im.stage, "corrupt-payload") && int64(len(got)) == sz && E.Known(sigCASFull) {
+					continue
+				}
 				t.Fatalf("CAS read returned %d bytes whose SHA-256 is not the key %s (size=%d)\n%s", len(got), hash, sz, desc)
 			}
 			if !ok {
@@ -494,7 +518,9 @@ func checkImage(t *rapid.T, im image, before, after, codec string, maxSize int64
 		}
 		if kind == cache.CAS {
 			if hit, got := read(kind, hash, int64(len(cur)), true); hit && !bytes.Equal(got, cur) {
-				t.Fatalf("compressed CAS read returned other bytes for %s\n%s", key, desc)
+				if !(key == inflightKey && before == "uncompressed" && strings.Contains(im.stage, "corrupt-payload") && len(got) == len(cur) && E.Known(sigCASFull)) {
+					t.Fatalf("compressed CAS read returned other bytes for %s\n%s", key, desc)
+				}
 			}
 		}
 	}
